@@ -67,7 +67,7 @@ M = [
  ('stats_dof_wrong', ST, 'let degrees_of_freedom = output_len - total_parameter_count;', 'let degrees_of_freedom = output_len - model.base_function_count();', 1, ['C12']),
  ('stats_h_unweighted', ST, 'let H = weights * J.clone();', 'let H = J.clone();', 1, ['C13']),
  ('stats_cov_sigma_once', ST, 'let covariance_matrix = HTH_inv * sigma * sigma;', 'let covariance_matrix = HTH_inv * sigma;', 1, ['C13']),
- ('stats_sigma_from_h', ST, '.zip(J.row_iter())', '.zip(H.row_iter())', 1, ['C14']),
+ ('stats_sigma_from_h', ST, '.zip(J.row_iter())', '.zip((weights * J.clone()).row_iter())', 1, ['C14']),   # rows of the WEIGHTED Jacobian (H itself has been moved by then)
  ('cbr_one_sided', ST, '(probability.into_f64() + 1.) / 2.,', 'probability.into_f64(),', 1, ['C14']),
  ('cbr_dof_plus1', ST, 'f64::from_usize(self.degrees_of_freedom)', 'f64::from_usize(self.degrees_of_freedom + 1)', 1, ['C14']),
  ('nlvar_wrong_start', ST, '''            &diagonal,
